@@ -1292,9 +1292,9 @@ Proof.
   - exists r. repeat split; auto; try tauto. apply incl_refl.
   - destruct (unpersist_mesh w m r a Hm) as [r1 [H1 [P1 [Q1 [K1 T1]]]]].
     destruct (IH _ _ H1) as [r' [H' [P' [Q' [K' T']]]]]. exists r'. repeat split; try congruence.
-    + apply P' in H. rewrite P1 in H. apply remove_val_In' in H. tauto.
     + apply P' in H. rewrite P1 in H. destruct H as [H _]. apply remove_val_In' in H. tauto.
-    + apply P'. rewrite P1. rewrite remove_val_In'. destruct H as [H1' H2']. repeat split; auto; intros ?; apply H2'; auto.
+    + apply P' in H. rewrite P1 in H. destruct H as [H N]. apply remove_val_In' in H. intros [E|E]; [subst; tauto|tauto].
+    + apply P'. rewrite P1. rewrite remove_val_In'. destruct H as [H1' H2']. repeat split; auto; intros ?; apply H2'; [left|right]; auto.
     + eapply incl_tran; eauto.
 Qed.
 
